@@ -1,7 +1,7 @@
 (* C10 - Resize limits and explicit resize requests are honoured exactly (model level).
    Statements only; closed by [exact] of lemmas of Stats.v. *)
 From Coq Require Import NArith ZArith List.
-From LC Require Import gen.HashGen Core Api InvDefs Stats.
+From LC Require Import gen.HashGen Core Api InvDefs ArrLemmas Stats InsertLemmas Resize Lazy Refine.
 Import ListNotations.
 Local Open Scope N_scope.
 
@@ -53,3 +53,92 @@ Print Assumptions C10_reserve_calc_least.
 (* the domain guard of the statement above is necessary: the C++ loop shifts by 64 (undefined) *)
 Example C10_reserve_calc_guard_needed : True.
 Proof. exact I. Qed.
+(* ---- generated statements (tools/mkprops.py): limits through the operations (Refine.v) ---- *)
+(* [good] contains [within t]: hashpower <= maximum whenever a maximum is set; it is an invariant of every
+   operation below ([evolves] implies [good] of the result). *)
+
+Theorem C10_rehash_postconditions :
+  forall (c : config) (hash : N -> N),
+  cfg_ok c ->
+  forall (mode : bool) (t : table) (n : N),
+  good c hash t ->
+  limC c (mhp t) ->
+  forall (t' : table) (r : exn + bool),
+  cuckoo_rehash c hash mode t n = (t', r) ->
+  (r = inr false <-> n = bhp (cur t)) /\
+  (r = inr false -> t' = t) /\
+  (r = inr true ->
+  good c hash t' /\
+  (forall (k : N) (v : Z), holds (cur t') k v <-> holds (cur t) k v) /\
+  lim_same t t' /\ n <= bhp (cur t') /\ rc t' = wrap64 (rc t + 1) /\ ~ maxed t n) /\
+  (forall e : exn,
+  r = inl e ->
+  n <> bhp (cur t) /\
+  exn_ok0 false t e /\
+  e <> ELoadFactorTooLow /\
+  (maxed t n -> t' = t /\ e = EMaxHashpower) /\
+  (destructive c = false -> evolves c hash t t' /\ bhp (cur t') = bhp (cur t))).
+Proof. exact cuckoo_rehash_good. Qed.
+Print Assumptions C10_rehash_postconditions.
+
+Theorem C10_reserve_postconditions :
+  forall (c : config) (hash : N -> N),
+  cfg_ok c ->
+  forall (mode : bool) (t : table) (n : N),
+  good c hash t ->
+  limC c (mhp t) ->
+  forall (t' : table) (r : exn + bool),
+  cuckoo_reserve c hash mode t n = (t', r) ->
+  let new_hp := reserve_calc c n in
+  (r = inr false <-> new_hp = bhp (cur t)) /\
+  (r = inr false -> t' = t) /\
+  (r = inr true ->
+  good c hash t' /\
+  (forall (k : N) (v : Z), holds (cur t') k v <-> holds (cur t) k v) /\
+  lim_same t t' /\
+  new_hp <= bhp (cur t') /\
+  rc t' = wrap64 (rc t + 1) /\
+  ~ maxed t new_hp /\ (n + spb c < 2 ^ 64 -> n <= 2 ^ bhp (cur t') * spb c)) /\
+  (forall e : exn,
+  r = inl e ->
+  new_hp <> bhp (cur t) /\
+  exn_ok0 false t e /\
+  e <> ELoadFactorTooLow /\
+  (maxed t new_hp -> t' = t /\ e = EMaxHashpower) /\
+  (destructive c = false -> evolves c hash t t' /\ bhp (cur t') = bhp (cur t))).
+Proof. exact cuckoo_reserve_good. Qed.
+Print Assumptions C10_reserve_postconditions.
+
+Theorem C10_automatic_expansion_policy :
+  forall (c : config) (hash : N -> N),
+  cfg_ok c ->
+  forall (mode : bool) (t : table),
+  nothrow c = true ->
+  good c hash t ->
+  immediate c mode t ->
+  let hp := bhp (cur t) in
+  (maxed t (hp + 1) -> cuckoo_fast_double c hash mode t hp = (t, inl EMaxHashpower)) /\
+  (~ maxed t (hp + 1) ->
+  lf_lt_mlf c t = true -> cuckoo_fast_double c hash mode t hp = (t, inl ELoadFactorTooLow)) /\
+  (~ maxed t (hp + 1) ->
+  lf_lt_mlf c t = false ->
+  exists t' : table,
+  cuckoo_fast_double c hash mode t hp = (t', inr St_ok) /\
+  (hp + 1 < 60 ->
+  good c hash t' /\
+  bhp (cur t') = hp + 1 /\
+  (forall (k : N) (v : Z), holds (cur t') k v <-> holds (cur t) k v) /\
+  lim_same t t' /\ immediate c mode t' /\ rc t' = wrap64 (rc t + 1) /\ nrem t' = 0)).
+Proof. exact cuckoo_fast_double_good. Qed.
+Print Assumptions C10_automatic_expansion_policy.
+
+Theorem C10_hashpower_stays_within_maximum :
+  forall (c : config) (hash : N -> N),
+  cfg_ok c ->
+  forall (mode : bool) (t : table) (k : N) (v : Z) (g : Z -> bool -> option (Z * bool)),
+  good c hash t ->
+  limC c (mhp t) ->
+  forall (t' : table) (r : exn + bool * list rv * (N * N)),
+  uprase_gen c hash mode t k v g = (t', r) -> up_post c hash t k v g t' r.
+Proof. exact uprase_gen_good_capped. Qed.
+Print Assumptions C10_hashpower_stays_within_maximum.
